@@ -1745,6 +1745,13 @@ func (sc *serverConn) processHeaders(f *MetaHeadersFrame) error {
 	// point, if it's valid).
 	st := sc.streams[f.Header().StreamID]
 	if st != nil {
+		// RFC 7540, sec 5.1: if an endpoint receives additional frames, other
+		// than WINDOW_UPDATE, PRIORITY, or RST_STREAM, for a stream that is
+		// half-closed (remote), it MUST respond with a stream error of type
+		// STREAM_CLOSED.
+		if st.state == stateHalfClosedRemote {
+			return StreamError{id, ErrCodeStreamClosed, "recv HEADERS frame on a half-closed (remote) stream"}
+		}
 		return st.processTrailerHeaders(f)
 	}
 
